@@ -20,4 +20,5 @@ Separate Extraction
   Xxhash.xxh64 Block.encode_block Block.new_reader Block.it_new Block.it_seek_first Block.it_next
   Block.it_seek Block.it_seek_prev Block.it_seek_last Block.it_valid Block.it_entry Block.block_scan
   SSTFile.file_parts SSTFile.parts_bytes SSTFile.enc_footer SSTFile.read_file SSTFile.upd
-  SSTFile.bl_of_block SSTFile.bl_contains SSTFile.bl_bytes.
+  SSTFile.bl_of_block SSTFile.bl_contains SSTFile.bl_bytes SSTFile.parse_locator SSTFile.filters_bytes
+  Block.slice.
